@@ -121,7 +121,7 @@ def run(ctx):
         rej = pipeline.self_check_exprs(ctx, [c for c in cases if c["kind"] == "expr"])
         rej.update(pipeline.self_check_progs(ctx, [c for c in cases if c["kind"] in ("prog", "coll", "obj")]))
         rej.update(pipeline.self_check_data(ctx, [c for c in cases if c["kind"] == "data"]))
-        pipeline.self_check_ctl(ctx, [c for c in cases if c["kind"] == "ctl"])
+        rej.update(pipeline.self_check_ctl(ctx, [c for c in cases if c["kind"] == "ctl"]))
     for cid, err in rej.items():
         c = next(x for x in cases if x["id"] == cid)
         ctx.fail("parse:rendered-program-rejected", {"src": c["body"], "err": err}, "a documented form does not parse", tags=c["tags"])
